@@ -333,16 +333,21 @@ func parseTimeGranularity(g string) (int, error) {
 	if err != nil {
 		return 0, err
 	}
+	mult := 0
 	switch unit {
 	case 'S':
-		return val, nil
+		mult = 1
 	case 'M':
-		return val * 60, nil
+		mult = 60
 	case 'H':
-		return val * 3600, nil
+		mult = 3600
 	default:
 		return 0, fmt.Errorf("unknown time unit %q", unit)
 	}
+	if secs := val * mult; secs/mult == val {
+		return secs, nil
+	}
+	return 0, errors.New("time step out of range")
 }
 
 // knownSuites list raw suites is based on https://datatracker.ietf.org/doc/html/rfc6287
